@@ -418,6 +418,60 @@ end G
 end Graph
 end Bpp
 
+/-! ## operation histories -/
+namespace Bpp.Graph
+
+/-- the mutating operations reachable through the observer / tree / DAG classes -/
+inductive Op where
+  | createNode
+  | createNodeFromNode (origin : Nat)
+  | createNodeOnEdge (e : Nat)
+  | createNodeFromEdge (e : Nat)
+  | link (a b : Nat)
+  | linkE (a b e : Nat)
+  | unlink (a b : Nat)
+  | switchNodes (a b : Nat)
+  | deleteNode (n : Nat)
+  | makeDirected
+  | makeUndirected
+  | setRoot (n : Nat)
+deriving DecidableEq, Repr
+
+def GOut.state {α : Type} : GOut α → G
+  | .ok _ g => g
+  | .exc g => g
+
+def GOut.raised {α : Type} : GOut α → Bool
+  | .ok _ _ => false
+  | .exc _ => true
+
+def GOut.forget {α : Type} : GOut α → GOut Unit
+  | .ok _ g => .ok () g
+  | .exc g => .exc g
+
+namespace G
+/-- one operation, result value dropped -/
+def apply (g : G) : Op → GOut Unit
+  | .createNode => (createNode g).forget
+  | .createNodeFromNode o => (createNodeFromNode o g).forget
+  | .createNodeOnEdge e => (createNodeOnEdge e g).forget
+  | .createNodeFromEdge e => (createNodeFromEdge e g).forget
+  | .link a b => (link a b g).forget
+  | .linkE a b e => (linkE a b e g).forget
+  | .unlink a b => (unlink a b g).forget
+  | .switchNodes a b => switchNodes a b g
+  | .deleteNode n => deleteNode n g
+  | .makeDirected => .ok () (makeDirected g)
+  | .makeUndirected => makeUndirected g
+  | .setRoot n => setRoot n g
+
+/-- the state after the operation, whether it succeeded or raised -/
+def step (g : G) (op : Op) : G := (g.apply op).state
+/-- the state after a history (every call either succeeds or raises, and the history goes on) -/
+def run (g : G) (ops : List Op) : G := ops.foldl step g
+end G
+end Bpp.Graph
+
 /-!
 ## The reference multigraph (specification)
 
